@@ -90,6 +90,47 @@ func (in *Interp) callBuiltin(fr *Frame, b *ssa.Builtin, args []V, site ssa.Inst
 			in.goPanicStr("value method called using nil pointer")
 		}
 		return p
+	case "String": // unsafe.String(ptr *byte, len)
+		p := args[0].(Ptr)
+		n := in.concInt(args[1], "unsafe.String len")
+		if n == 0 {
+			return StrV{}
+		}
+		if p.C == nil || p.C.Parent == nil || p.C.Idx+n > len(p.C.Parent.Kids) {
+			in.unsupported("unsafe.String on non-array pointer")
+		}
+		ts := make([]*Term, n)
+		for i := 0; i < n; i++ {
+			ts[i] = in.readCell(p.C.Parent.Kids[p.C.Idx+i]).(*Term)
+		}
+		return MkStr(ts)
+	case "StringData": // unsafe.StringData(s)
+		sv := args[0].(StrV)
+		n := sv.Len()
+		if n == 0 {
+			return Ptr{}
+		}
+		arr := in.newArrayCell(types.Typ[types.Uint8], n, "StringData")
+		for i := 0; i < n; i++ {
+			arr.Kids[i].V = sv.At(i)
+		}
+		return Ptr{C: arr.Kids[0]}
+	case "SliceData":
+		sl := args[0].(SliceV)
+		if sl.Arr == nil || sl.Cap == 0 {
+			return Ptr{}
+		}
+		return Ptr{C: sl.Arr.Kids[sl.Off]}
+	case "Slice": // unsafe.Slice(ptr, len)
+		p := args[0].(Ptr)
+		n := in.concInt(args[1], "unsafe.Slice len")
+		if p.C == nil {
+			return SliceV{}
+		}
+		if p.C.Parent == nil || p.C.Idx+n > len(p.C.Parent.Kids) {
+			in.unsupported("unsafe.Slice on non-array pointer")
+		}
+		return SliceV{Arr: p.C.Parent, Off: p.C.Idx, Len: n, Cap: len(p.C.Parent.Kids) - p.C.Idx}
 	case "real":
 		return args[0].(StructV)[0]
 	case "imag":
